@@ -62,7 +62,8 @@ def run_case(case, ctx):
         if case.get("two_seq"):
             A = g("init", lambda: SS.SpanSet([s for s, _ in a], [e for _, e in a], eq_relation=rel_obj(ra)))
         else:
-            A = g("init", lambda: SS.SpanSet(list(a), eq_relation=rel_obj(ra)))
+            # force_no_dup_check "is not obeyed when starts contains Iterable of spans" (constructor documentation)
+            A = g("init", lambda: SS.SpanSet(list(a), eq_relation=rel_obj(ra), force_no_dup_check=bool(case.get("force"))))
         B = g("init", lambda: SS.SpanSet(iter(b), eq_relation=rel_obj(rb)))
         ka, kb = build(a, ra), build(b, rb)
         A0 = None
@@ -186,6 +187,6 @@ def strategies(tier):
     floats = span(st.integers(0, 16).map(lambda i: i / 4))
     case = st.one_of(*[
         st.fixed_dictionaries({"a": st.lists(sp, max_size=5), "b": st.lists(sp, max_size=5), "ra": st.integers(0, 3),
-                               "rb": st.integers(0, 3), "two_seq": st.booleans(), "via_copy": st.sampled_from([False, False, True]), "probes": st.lists(sp, max_size=3)})
+                               "rb": st.integers(0, 3), "two_seq": st.booleans(), "via_copy": st.sampled_from([False, False, True]), "force": st.sampled_from([False, False, True]), "probes": st.lists(sp, max_size=3)})
         for sp in (ints, floats)])
     return [("drawn-pairs", case, 1000000 if big else 10000)]
